@@ -1105,12 +1105,14 @@ impl Exec {
                             ));
                         }
                     } else if self.obs.chunk_text {
-                        let joined = String::from_utf8_lossy(&concat).to_string();
+                        let joined = crate::props::c34::canon_line(&String::from_utf8_lossy(&concat));
                         for line in norm.lines() {
                             let t = line.trim();
-                            if t.is_empty() {
+                            if t.is_empty() || crate::props::c34::is_markup_only(t) {
                                 continue;
                             }
+                            let t = crate::props::c34::canon_line(t);
+                            let t = t.as_str();
                             if !joined.contains(t) {
                                 return Err(Fail::new(
                                     self.key("structured-line-lost"),
